@@ -162,6 +162,39 @@ def main():
     d2 = int(re.search(r"depth of the complete state graph search is (\d+)", o2).group(1))
     print("(ii) recorded trace of %d events: accepted=%s ; with event %d corrupted: rejected at event %d" % (len(L), "No error" in o1 and d1 - 1 == len(L), k + 1, d2))
     ok &= "No error" in o1 and d1 - 1 == len(L) and d2 == k + 1
+    # ---------------------------------------------------------------- (ii-b) windowed history at 65 600 entries
+    d = fresh("huge")
+    tr = os.path.join(d, "t.ndjson")
+    relb = [os.path.join(check.HARNESS, "target", "p-release", "release", "verif-harness")]
+    if os.path.exists(relb[0]):
+        subprocess.run(relb + ["trace", "--mode", "map", "--seed", "3", "--steps", "120", "--window", "1", "--trace", tr, "--out", os.path.join(d, "i.json")], check=True)
+        o1 = tlc(d, "Trace", cfg, {"TRACE": tr}, workers="1")
+        L = open(tr).read().splitlines()
+        d1 = int(re.search(r"depth of the complete state graph search is (\d+)", o1).group(1))
+        verdicts = []
+        for what in ("digest", "hidden"):
+            M = list(L)
+            if what == "digest":     # a complete traversal (or the final drain) whose digest of the hidden entries is off by one
+                k = next(i for i in range(1, len(M)) if json.loads(M[i]).get("o", {}).get("name") in ("cursor_all", "drain_all"))
+                e = json.loads(M[k])
+                e["r"]["hs"] = "%016x" % ((int(e["r"]["hs"], 16) + 1) % (1 << 64))
+            else:                    # a single-key call after which one hidden entry has silently gone
+                k = next(i for i in range(5, len(M)) if json.loads(M[i]).get("o", {}).get("name") in ("get", "insert", "remove", "entry"))
+                e = json.loads(M[k])
+                e["hid2"] = e["hid2"] - 1
+                e["len"] = e["len"] - 1
+            M[k] = json.dumps(e)
+            bad = os.path.join(d, "bad-%s.ndjson" % what)
+            open(bad, "w").write("\n".join(M) + "\n")
+            o2 = tlc(d, "Trace", cfg, {"TRACE": bad}, workers="1")
+            d2 = int(re.search(r"depth of the complete state graph search is (\d+)", o2).group(1))
+            verdicts.append((what, k + 1, d2))
+            ok &= d2 == k + 1
+        print("(ii-b) windowed trace of %d events at capacity 65 600: accepted=%s ; corrupted (what, event, rejected at): %s"
+              % (len(L), "No error" in o1 and d1 - 1 == len(L), verdicts))
+        ok &= "No error" in o1 and d1 - 1 == len(L)
+    else:
+        print("(ii-b) skipped: no release harness")
     # ---------------------------------------------------------------- (iii)
     for bug in SPEC_BUGS:
         title, module, cfg, edits, inv = bug[:5]
